@@ -238,6 +238,8 @@ def write_replay(pid: str, v: Dict[str, Any]) -> str:
 
 def write_evidence(pid: str, tier: str, seed: int, level: str, coverage: Dict[str, Any],
                    assumptions: List[str], wall: float, violations: int) -> None:
+    if os.environ.get("VERIF_NO_EVIDENCE"):
+        return  # scratch-tree experiments must not overwrite evidence produced against /repo
     os.makedirs(os.path.join(VERIF, "evidence"), exist_ok=True)
     ev = {
         "property_id": pid,
